@@ -323,15 +323,12 @@ Definition oracle_gr_all (s s' : sgr) (o : line) (r : list bytes) : list bytes :
        | Some (Some (name, q', mps)) =>
          check (beqb rname name) "C13:not-the-first-accepting-router" ++
          check (beqb path (m_path q')) "C13:router-saw-a-different-path" ++
-         (* known finding F28: a Hosts member whose lookup backtracks over (or rejects after) a domain parameter deletes
-            an earlier member's parameter of the same name; any other loss is a violation *)
+         (* F28 (repaired): a Hosts member whose lookup backtracks over (or rejects after) a domain parameter used to
+            delete an earlier member's parameter of the same name; any loss is a violation *)
          (let lost := filter (fun kv => negb (match ctx_get ps (fst kv) with Some v => beqb v (snd kv) | None => false end)) mps in
           match lost with
           | [] => []
-          | _ => if forallb (fun kv => mem (fst kv) (spec_host_params (opt_default [] (alookup name (gspec s)))) &&
-                                        match ctx_get ps (fst kv) with None => true | Some _ => false end) lost
-                 then [bs "known:hosts-lookup-deleted-same-named-parameter"]
-                 else [bs "C13:matcher-parameters-missing"]
+          | _ => [bs "C13:matcher-parameters-missing"]
           end) ++
          (* nothing but the accepting matcher's parameters and the route's own captures *)
          (match tokens (nth 7 r []) with
@@ -403,8 +400,7 @@ Definition oracle_gr_all (s s' : sgr) (o : line) (r : list bytes) : list bytes :
   else [].
 
 Definition oracle_gr (s s' : sgr) (o : line) (r : list bytes) : list bytes :=
-  filter (fun c => has_prefix c (gpid s) || beqb (gpid s) (bs "GR") ||
-                   (has_prefix c (bs "known:hosts-lookup") && beqb (gpid s) (bs "C13"))) (oracle_gr_all s s' o r).
+  filter (fun c => has_prefix c (gpid s) || beqb (gpid s) (bs "GR")) (oracle_gr_all s s' o r).
 
 Definition absorb_gr (s : sgr) (o : line) (r : list bytes) : sgr :=
   let op := arg 0 o in
